@@ -267,3 +267,40 @@ def _(self: Obj(Mbi_MixinKeyStore, ivt_table=Obj(Mbi_MixinIvt), HMAC_OFFSET=Cons
             label="key-store-is-the-1424-bytes-behind-the-hmac-block")
     modifies(self.key_store)
     sample_with(lambda rnd: _mk_ksm(rnd))
+
+
+# ---- the IVT words the parser trusts: total length, flags, CRC / certificate-block offset ------------------------------------------------------------
+from spsdk.exceptions import SPSDKParsingError as _ParsErr  # noqa: E402
+
+inline("spsdk.image.mbi.mbi_mixin:Mbi_MixinIvt.get_flags_from_data", "spsdk.image.mbi.mbi_mixin:Mbi_MixinIvt.get_cert_block_offset_from_data")
+
+
+@contract("spsdk.image.mbi.mbi_mixin:Mbi_MixinIvt.update_crc_val_cert_offset")
+def _(self: SubObj(Mbi_MixinIvt), app_data: Bytes(lo=0x38), crc_val_cert_offset: U32) -> bytearray:
+    ensures(len(result) == len(app_data), label="same-length")
+    ensures(unpack_from("<I", result, 0x28)[0] == crc_val_cert_offset, label="word-0x28-takes-the-value")
+    ensures(forall(0, len(app_data), lambda k: implies(not (0x28 <= k and k < 0x2C), result[k] == app_data[k])), label="everything-else-untouched")
+    pure()
+    sample_with(lambda rnd: {"self": _mk(rnd, "min"), "app_data": bytes(rnd.getrandbits(8) for _ in range(rnd.choice([0x38, 0x40, 100]))), "crc_val_cert_offset": rnd.getrandbits(32)})
+
+
+@contract("spsdk.image.mbi.mbi_mixin:Mbi_MixinIvt.check_total_length")
+def _(cls: Const(Mbi_MixinIvt), data: Bytes(lo=0, hi=1 << 20)):
+    # an image is accepted for parsing exactly when it holds a whole IVT and at least as many bytes as its own total-length word announces
+    raises(_ParsErr, len(data) < 0x38 or int.from_bytes(data[0x20:0x24], "little") > len(data), label="shorter-than-the-ivt-or-than-announced")
+    pure()
+    sample_with(lambda rnd: {"cls": Mbi_MixinIvt, "data": (lambda n, t: bytes(0x20) + t.to_bytes(4, "little") + bytes(max(n - 0x24, 0)))(rnd.choice([0x38, 0x40, 0x100]), rnd.choice([0, 0x38, 0x40, 0x41, 0x101]))[: rnd.choice([0x10, 0x38, 0x40, 0x100])]})
+
+
+@contract("spsdk.image.mbi.mbi_mixin:Mbi_MixinIvt.get_flags")
+def _(cls: Const(Mbi_MixinIvt), data: Bytes(lo=0, hi=1 << 20)) -> int:
+    raises(_ParsErr, len(data) < 0x38 or int.from_bytes(data[0x20:0x24], "little") > len(data), label="shorter-than-the-ivt-or-than-announced")
+    returns(int.from_bytes(data[0x24:0x28], "little"), label="flags-word")
+    pure()
+
+
+@contract("spsdk.image.mbi.mbi_mixin:Mbi_MixinIvt.get_cert_block_offset")
+def _(cls: Const(Mbi_MixinIvt), data: Bytes(lo=0, hi=1 << 20)) -> int:
+    raises(_ParsErr, len(data) < 0x38 or int.from_bytes(data[0x20:0x24], "little") > len(data), label="shorter-than-the-ivt-or-than-announced")
+    returns(int.from_bytes(data[0x28:0x2C], "little"), label="certificate-block-offset-word")
+    pure()
